@@ -114,6 +114,15 @@ package generic
 //@     decreases len(sc(scanner).content) - sc(scanner).position
 
 // ---- number state (C04, C12, C13): -?digits(.digits)? with at least one digit, else the symbol state ----
+// the number grammar as functions of the input: where the maximal digit run from i ends; the position after an
+// optional sign (numA), after the integer digits (numB), after an optional fraction (numC)
+//@ spec isdig(r rune) bool = 48 <= r && r <= 57
+//@ rec digEnd(s seq[rune], i int) int decreases len(s) - i = (i >= 0 && i < len(s) && isdig(s[i])) ? digEnd(s, i + 1) : i
+//@ spec numA(s seq[rune], k int) int = chr(s, k) == 45 ? k + 1 : k
+//@ spec numB(s seq[rune], k int) int = digEnd(s, numA(s, k))
+//@ spec numDot(s seq[rune], k int) bool = chr(s, numB(s, k)) == 46
+//@ spec numC(s seq[rune], k int) int = numDot(s, k) ? digEnd(s, numB(s, k) + 1) : numB(s, k)
+//@ spec numGot(s seq[rune], k int) bool = numB(s, k) > numA(s, k) || (numDot(s, k) && numC(s, k) > numB(s, k) + 1)
 //@ func (c *GenericNumberState) NextToken
 //@   requires c != nil && isScanner(scanner) && sc(scanner).position + 1 < len(sc(scanner).content)
 //@   requires forall i int :: 0 <= i && i < len(sc(scanner).content) ==> scalar(sc(scanner).content[i])
@@ -121,6 +130,9 @@ package generic
 //@   ensures[C04,C12] result != nil && isScanner(scanner) && sc(scanner).content == old(sc(scanner).content) && result.typ != tokenizers.Eof
 //@   ensures[C04] spans(result.value, scanner, old(cur(scanner)), cur(scanner))
 //@   ensures[C12] result.line == L(seq(sc(scanner).content), old(cur(scanner))) && result.column == C(seq(sc(scanner).content), old(cur(scanner)))
+// "a sign is ... part of the number generically"; the longest number that starts here; Integer without, Float with a point
+//@   ensures[C13] numGot(seq(sc(scanner).content), old(cur(scanner))) ==> cur(scanner) == numC(seq(sc(scanner).content), old(cur(scanner))) &&
+//@       result.typ == (numDot(seq(sc(scanner).content), old(cur(scanner))) ? tokenizers.Float : tokenizers.Integer)
 //@   assigns sc(scanner).position, sc(scanner).line, sc(scanner).column
 //@   nopanic
 //@   loop 0
@@ -130,6 +142,9 @@ package generic
 //@     invariant spans(builder(tokenValue), scanner, old(cur(scanner)), sc(scanner).position)
 //@     invariant len(builder(tokenValue)) == rlen(builder(tokenValue))
 //@     invariant line == L(seq(sc(scanner).content), old(cur(scanner))) && column == C(seq(sc(scanner).content), old(cur(scanner)))
+//@     invariant numA(seq(sc(scanner).content), old(cur(scanner))) <= sc(scanner).position && !absorbedDot &&
+//@         numB(seq(sc(scanner).content), old(cur(scanner))) == digEnd(seq(sc(scanner).content), sc(scanner).position) &&
+//@         gotADigit == (sc(scanner).position > numA(seq(sc(scanner).content), old(cur(scanner))))
 //@     decreases len(sc(scanner).content) - sc(scanner).position
 //@   loop 1
 //@     invariant isScanner(scanner) && sc(scanner).content == old(sc(scanner).content)
@@ -138,6 +153,10 @@ package generic
 //@     invariant spans(builder(tokenValue), scanner, old(cur(scanner)), sc(scanner).position)
 //@     invariant len(builder(tokenValue)) == rlen(builder(tokenValue))
 //@     invariant line == L(seq(sc(scanner).content), old(cur(scanner))) && column == C(seq(sc(scanner).content), old(cur(scanner)))
+//@     invariant absorbedDot && numDot(seq(sc(scanner).content), old(cur(scanner))) && numB(seq(sc(scanner).content), old(cur(scanner))) + 1 <= sc(scanner).position &&
+//@         numC(seq(sc(scanner).content), old(cur(scanner))) == digEnd(seq(sc(scanner).content), sc(scanner).position) &&
+//@         gotADigit == (numB(seq(sc(scanner).content), old(cur(scanner))) > numA(seq(sc(scanner).content), old(cur(scanner))) ||
+//@                       sc(scanner).position > numB(seq(sc(scanner).content), old(cur(scanner))) + 1)
 //@     decreases len(sc(scanner).content) - sc(scanner).position
 //
 // ---- C / C++ comment states (C04, C12) ---------------------------------------------------------------
